@@ -328,6 +328,25 @@ pub fn specs(ctx: &Ctx) -> Vec<NumSpec> {
                 out.push(NumSpec { integer, lo: Some((a.to_string(), ex)), hi: None, mult: None, form: 0, lo2: Some(b.to_string()), hi2: None });
             }
         }
+        // decimal bounds x decimal steps: point ranges and narrow ranges on a grid of tenths / quarters, where binary
+        // floating point cannot represent the quotients exactly (0.3 / 0.1), for number and for integer schemas
+        // (an integer that is also a multiple of 0.75 is a multiple of 3)
+        {
+            let grid = ["0", "0.1", "0.2", "0.25", "0.3", "0.5", "0.6", "0.7", "0.75", "0.9", "1", "1.5", "2.25", "2.5", "3"];
+            let steps: Vec<&str> = if ctx.quick() { vec!["0.1", "0.75"] } else { vec!["0.1", "0.25", "0.3", "0.75", "0.01", "1.5"] };
+            for (i, lo) in grid.iter().enumerate() {
+                for hi in grid.iter().skip(i) {
+                    for m in steps.iter() {
+                        for ex in [0u8, 3] {
+                            if ex == 3 && lo == hi {
+                                continue;
+                            }
+                            out.push(NumSpec { integer, lo: Some((lo.to_string(), ex & 1 == 1)), hi: Some((hi.to_string(), ex & 2 == 2)), mult: Some(m.to_string()), form: 0, lo2: None, hi2: None });
+                        }
+                    }
+                }
+            }
+        }
         // decimal bounds
         let decs = ["-1.5", "-0.25", "-0.001", "0.001", "0.5", "0.75", "1.25", "2.5", "9.99", "10.01", "-3.125"];
         let decs: Vec<&str> = if ctx.quick() { decs[..6].to_vec() } else { decs.to_vec() };
